@@ -96,10 +96,10 @@ Qed.
 
 Lemma items_open r i prev sp :
   items_of (TT_StartGroup :: r) i prev sp
-  = option_map (fun R => leadl prev sp ++ IOpen i :: R) (items_of r (S i) (Some KOpen) false).
+  = option_map (fun R => leadl prev sp ++ IOpen BRound i :: R) (items_of r (S i) (Some (KOpen BRound)) false).
 Proof.
   cbn [items_of ref_kind starts_value_k]. unfold leadl.
-  destruct prev as [p|]; [rewrite andb_true_r|]; destruct (items_of r (S i) (Some KOpen) false); reflexivity.
+  destruct prev as [p|]; [rewrite andb_true_r|]; destruct (items_of r (S i) (Some (KOpen BRound)) false); reflexivity.
 Qed.
 
 Lemma items_suffix t r i prev sp : ref_kind t = KSuffix ->
@@ -120,17 +120,17 @@ Qed.
 
 Lemma items_close r i prev sp :
   items_of (TT_EndGroup :: r) i prev sp
-  = option_map (fun R => IClose i :: R) (items_of r (S i) (Some KClose) false).
+  = option_map (fun R => IClose BRound i :: R) (items_of r (S i) (Some (KClose BRound)) false).
 Proof.
   cbn [items_of ref_kind starts_value_k].
-  destruct prev as [p|]; [rewrite andb_false_r|]; destruct (items_of r (S i) (Some KClose) false); reflexivity.
+  destruct prev as [p|]; [rewrite andb_false_r|]; destruct (items_of r (S i) (Some (KClose BRound)) false); reflexivity.
 Qed.
 
 (* ---- the last significant token of an expression ends a value ---- *)
 Fixpoint lastk (e : expr) : tok_kind :=
   match e with
   | EUn o x => if is_prefix o then lastk x else KSuffix
-  | EGroup _ => KClose
+  | EGroup _ => KClose BRound
   | EBin _ _ r | EAnd _ r | EOr _ r | EList _ _ r | ECond _ _ r | EElse _ r => lastk r
   | _ => KValue
   end.
